@@ -374,12 +374,12 @@ func c04r2(c *core.Ctx) {
 
 // purge summaries of one function with respect to the per-target containers.
 type purgeSummary struct {
-	all      map[string]bool // container purged for every entry (loop over the container removing the table id)
+	all      map[string]bool   // container purged for every entry (loop over the container removing the table id)
 	allCond  map[string]string // container -> guard text under which the all-purge runs ("" = unconditional)
-	cols     map[string]bool // container purged for every relation column of the table (indexed by column index / its target)
-	target   map[string]bool // container entry of one target entity deleted
-	active   bool            // removes the table from the archetype's active list
-	cache    bool            // removes the table from every cache entry
+	cols     map[string]bool   // container purged for every relation column of the table (indexed by column index / its target)
+	target   map[string]bool   // container entry of one target entity deleted
+	active   bool              // removes the table from the archetype's active list
+	cache    bool              // removes the table from every cache entry
 	setsFree bool
 	clearAll map[string]bool // container replaced by an empty one
 }
